@@ -296,6 +296,9 @@ BAD_TOKENS = [
 ]
 
 
+_TS = None
+
+
 class C20(framework.PropertyCheck):
     pid = 'C20'
     quick_cases = 100
@@ -326,6 +329,17 @@ class C20(framework.PropertyCheck):
                     'end': [('print', 'end ', ('bin', '+', ('v', 'x'), ('v', 'y')))] + [g.stmt(0, vars_) for _ in range(g.r.randint(0, 1))],
                     'stmts': [{'conds': [g.cond(g.r.randint(0, 2), vars_) for _ in range(g.r.randint(1, 3))],
                                'action': [g.stmt(1, vars_) for _ in range(g.r.randint(1, 3))]} for _ in range(g.r.randint(1, 3))]}
+            if g.r.random() < 0.3:
+                # a variable named like a binder of the library macros the emitted program uses (array reads expand to geta/default)
+                global _TS
+                if _TS is None:
+                    from .c15 import template_symbols
+                    import re
+                    _TS = sorted(t for t in set(template_symbols()) - {'args', 'x', 'y', 'z', 'e'} if re.fullmatch(r'[A-Za-z_][A-Za-z0-9_]*', t)) or ['tmp']
+                h = g.r.choice(_TS)
+                prog['begin'].append(('assign', h, ('n', g.r.randint(1, 3))))
+                prog['end'].insert(0, ('aset', 'arr', ('v', h), ('bin', '+', ('arr', 'arr', ('v', h)), ('n', 1))))
+                prog['end'].insert(1, ('print', 'h ', ('arr', 'arr', ('v', h))))
             if len(prog['stmts']) >= 2 and g.r.random() < 0.3:
                 # statements guarded by the same conditions still run in source order, each in its own turn
                 prog['stmts'][-1]['conds'] = list(prog['stmts'][0]['conds'])
